@@ -473,8 +473,10 @@ parse_node_t* optimize_loop_test (parse_node_t * pn) {
           CREATE_OPCODE_2 (ret, F_LOOP_COND_LOCAL, 0,
                            pn->l.expr->l.number, pn->r.expr->l.number);
         }
-      else if (pn->r.expr->kind == NODE_NUMBER)
+      else if (pn->r.expr->kind == NODE_NUMBER
+               && pn->r.expr->v.number >= INT32_MIN && pn->r.expr->v.number <= INT32_MAX)
         {
+          /* F_LOOP_COND_NUMBER carries a 32-bit constant */
           CREATE_OPCODE_2 (ret, F_LOOP_COND_NUMBER, 0,
                            pn->l.expr->l.number, pn->r.expr->v.number);
         }
